@@ -138,6 +138,7 @@ type Exec struct {
 	touched   map[string]bool
 	touchSeen map[*Term]bool
 	decided   map[*Term]bool
+	stdout    string
 	race      bool
 	shadow    map[interface{}]*accessInfo
 	mutexes   map[*Loc]*mutexState
